@@ -51,6 +51,22 @@ def shortened(text):
     return m.group(0)[1:-1] if m else None
 
 
+def returned_value(body):
+    """The expression a function returns through its tail; a tail that is an immutable local defined once in the same block
+    (`let merged = <expr>; debug_assert!(..); merged`) is that expression."""
+    blk = peel(body["tree"])
+    while blk.get("k") == "blockexpr":
+        blk = blk["block"]
+    tail = peel(blk["tail"]) if blk.get("tail") is not None else {}
+    if local_of(tail) is not None:
+        defs = [s_ for s_ in blk.get("stmts", []) if s_.get("k") == "let" and s_["pat"].get("p") == "bind" and s_["pat"]["id"] == local_of(tail) and s_.get("init") is not None
+                and "Mut" not in s_["pat"].get("mode", "")]
+        touched = [x for x in nodes(body["tree"], "mcall") if local_of(peel_ref(x["recv"])) == local_of(tail) and "ref_mut" in (x["recv"].get("adj") or [])]
+        if len(defs) == 1 and not touched:
+            return peel(defs[0]["init"])
+    return tail
+
+
 def _recv(n, R):
     """A range literal in receiver position is parenthesised: `(a..b).len()`, not `a..b.len()`."""
     p = peel(n)
